@@ -332,6 +332,7 @@ impl BRC20ProgEngine {
                 .read()
                 .get_pending_tx_op_return_tx_id(pending_tx.hash.bytes)?;
 
+            let mut executed = false;
             if let Some(pending_tx_block_number) = pending_tx.block_number {
                 let pending_tx_block_number: u64 = pending_tx_block_number.into();
                 if MAX_FUTURE_TRANSACTION_BLOCKS + pending_tx_block_number > block_number {
@@ -355,11 +356,17 @@ impl BRC20ProgEngine {
                         pending_tx_op_return_tx_id.unwrap_or([0u8; 32].into()).bytes,
                     )?;
                     receipts.push(receipt);
+                    executed = true;
                 }
             }
             self.db.write_fn(|db| {
                 db.remove_pending_tx(pending_tx.from.address, pending_tx.nonce.into())
             })?;
+            if !executed {
+                // An expired transaction is dropped without running, so the account nonce did not
+                // advance and no transaction index was used: later nonces cannot follow it
+                break;
+            }
             next_nonce += 1;
             next_tx_idx += 1;
         }
